@@ -241,3 +241,38 @@ Fixpoint map_retain_st {V S} (m : rmap V) (f : S -> N -> V -> trap (result (S * 
       ' (r', s2) <-? map_retain_st r f s1 ;;
       Val (OkR (if keep : bool then (k, v) :: r' else r', s2))
   end.
+
+(** * BTreeMap<String, V> and Vec<u8> (vls-persist/src/kvv)
+    A string is the list of its UTF-8 bytes; [Ord for str] is the lexicographic order of the bytes; the map is the list
+    of its entries in ascending key order (what [iter] / [range] of the BTreeMap walk through). *)
+Fixpoint bytes_cmp (a b : list N) : comparison :=
+  match a, b with
+  | [], [] => Eq
+  | [], _ :: _ => Lt
+  | _ :: _, [] => Gt
+  | x :: a', y :: b' => match N.compare x y with Eq => bytes_cmp a' b' | c => c end
+  end.
+(** [==] on Vec<u8> *)
+Fixpoint bytes_eqb (a b : list N) : bool :=
+  match a, b with
+  | [], [] => true
+  | x :: a', y :: b' => (x =? y) && bytes_eqb a' b'
+  | _, _ => false
+  end.
+Definition bmap (V : Type) := list (list N * V).
+Fixpoint bmap_get {V} (m : bmap V) (k : list N) : option V :=
+  match m with
+  | [] => None
+  | (k', v) :: r => match bytes_cmp k k' with Eq => Some v | _ => bmap_get r k end
+  end.
+(** [m.insert(k, v)]: the entry for [k] is replaced, or added at its place in the order *)
+Fixpoint bmap_insert {V} (m : bmap V) (k : list N) (v : V) : bmap V :=
+  match m with
+  | [] => [(k, v)]
+  | (k', v') :: r =>
+      match bytes_cmp k k' with
+      | Eq => (k, v) :: r
+      | Lt => (k, v) :: (k', v') :: r
+      | Gt => (k', v') :: bmap_insert r k v
+      end
+  end.
